@@ -64,6 +64,41 @@ def search(ctx):
             why = 'FormFactor is not sum a_i exp(-b_i s^2) + c'
         if why:
             fails.append({'element': el, 'what': why, 'replay': 'structure.FormFactor(%r, s): %s' % (el, why)})
+    # array-valued s (the expression is elementwise): any order, repeated values, 2-d, lists, numpy scalars - each entry must equal the scalar call
+    rng = ctx.rng
+    seen = set()
+    for k in range(ctx.n(60, 600)):
+        el = rng.choice(ELEMENTS)
+        n = rng.choice([1, 2, 3, 5, 8, 40])
+        vals = [rng.choice([0.0, 2.0, round(rng.uniform(0, 2), 3), rng.uniform(0, 2)]) for _ in range(n)]
+        kind = rng.choice(['shuffled', 'descending', 'ascending', 'with repeats', '2-d', 'list', 'numpy scalar', 'int zero'])
+        if kind == 'descending':
+            vals = sorted(set(vals), reverse=True)
+        elif kind == 'ascending':
+            vals = sorted(set(vals))
+        elif kind == 'with repeats':
+            vals = vals + vals[:max(1, n // 2)]
+            rng.shuffle(vals)
+        arg = np.array(vals)
+        if kind == '2-d' and len(vals) % 2 == 0 and len(vals) > 1:
+            arg = arg.reshape(2, -1)
+        elif kind == 'list':
+            arg = list(vals)
+        elif kind == 'numpy scalar':
+            arg = np.float64(vals[0])
+        elif kind == 'int zero':
+            arg = rng.choice([0, 1, 2, np.int64(1)])
+        ctx.count(('arr', k), hist='search:array-valued s:' + kind)
+        try:
+            exp = np.array([structure.FormFactor(el, float(x)) for x in np.asarray(arg, float).reshape(-1)]).reshape(np.shape(arg))
+            got = np.asarray(structure.FormFactor(el, arg), float)
+            if got.shape != exp.shape or np.max(np.abs(got - exp)) > 1e-9:
+                if ('arr', kind) not in seen:
+                    seen.add(('arr', kind))
+                    why = 'FormFactor(%r, s) for s = %r (%s) is %r, entry by entry the scalar calls give %r' % (el, arg if not isinstance(arg, np.ndarray) else arg.tolist(), kind, got.tolist(), exp.tolist())
+                    fails.append({'element': el, 'what': why[:600], 'class': 'array', 'replay': why[:600]})
+        except TypeError:
+            ctx.dist['array-valued s not accepted:' + kind] = ctx.dist.get('array-valued s not accepted:' + kind, 0) + 1
     return fails
 
 
